@@ -158,6 +158,35 @@ pub fn run(rng: &mut R, out: &mut Out) {
             one_header(out, &h);
         }
     }
+    // consecutive parameter sets whose fedpeg_program ‖ fedpegscript ‖ extension entries CONCATENATE to the same bytes
+    // but are cut differently (a byte moved across a field boundary, entries regrouped): evaluated back to back, each
+    // must get its own roots (nothing remembered from the previous set may be reused)
+    for _ in 0..6 * scale {
+        let sbs = gen::script(rng);
+        let lim = gen::u32_edge(rng);
+        let blob = gen::bytes(rng, 40);
+        let mk = |p: usize, f: usize, cuts: &[usize]| -> Params {
+            let prog = blob[..p].to_vec();
+            let fs = blob[p..p + f].to_vec();
+            let mut ext = vec![];
+            let mut at = p + f;
+            for &c in cuts { ext.push(blob[at..at + c].to_vec()); at += c; }
+            ext.push(blob[at..].to_vec());
+            Params::Full(FullParams::new(sbs.clone(), lim, elements::bitcoin::ScriptBuf::from_bytes(prog), fs, ext))
+        };
+        let sets = [mk(10, 10, &[5, 5]), mk(11, 9, &[5, 5]), mk(10, 10, &[4, 6]), mk(10, 11, &[4, 5]), mk(10, 10, &[10]), mk(10, 10, &[5, 5]), mk(9, 11, &[5, 5])];
+        for p in sets.iter() {
+            out.count("params.recut_sequence");
+            one_params(out, p);
+        }
+        // and inside one header
+        let mut h = gen::header(rng);
+        h.ext = BlockExtData::Dynafed { current: sets[0].clone(), proposed: sets[1].clone(), signblock_witness: vec![] };
+        one_header(out, &h);
+        let mut h = gen::header(rng);
+        h.ext = BlockExtData::Dynafed { current: sets[2].clone(), proposed: sets[0].clone(), signblock_witness: vec![] };
+        one_header(out, &h);
+    }
     // extension-space entries on both sides of the compact-size boundary
     for l in [0usize, 1, 66, 252, 253, 254, 255, 256, 300, 65535, 65536] {
         let f = FullParams::new(gen::script(rng), 3, elements::bitcoin::ScriptBuf::from_bytes(gen::bytes(rng, 22)), gen::bytes(rng, 10), vec![gen::bytes(rng, l), gen::bytes(rng, 2)]);
